@@ -275,7 +275,7 @@ def _common_guard(g1, g2):
     return T.mk_and([c for c in _split_guard(g1) if c.key in k2])
 
 
-def agree_ref(ctx, fi, ref_src, title, what=('return', 'heap', 'substores'), rule='AGREE', skip_attrs=(), **runkw):
+def agree_ref(ctx, fi, ref_src, title, what=('return', 'heap', 'substores'), rule='AGREE', skip_attrs=(), norm_call=None, **runkw):
     """Compare a function with a reference transcription of the property's definition evaluated by
     the same interpreter: return value, final values of self attributes, attribute stores, calls,
     buffer stores, loop-carried updates, raise/assert guards.  Events are matched as multisets (the
@@ -337,6 +337,8 @@ def agree_ref(ctx, fi, ref_src, title, what=('return', 'heap', 'substores'), rul
             extra = [e.data.get('star') if e.data.get('star') is not None else T.NONE,
                      e.data.get('dstar') if e.data.get('dstar') is not None else T.NONE]
             b = e.data.get('bound')
+            if b and norm_call is not None:
+                b = norm_call(e, dict(b)) or b        # rule-supplied semantic normalisation of an argument
             if b:
                 items = sorted(b.items())
                 rv = e.data.get('recv')
